@@ -262,7 +262,7 @@ def finish(prop, tier, seed, merged, *, level, rule, assumptions, min_nontrivial
             seen_known.add(kk)
             continue
         n_viol += 1
-        rdir = os.path.join(ROOT, "replays", prop)
+        rdir = os.path.join(ROOT, "replays" if os.environ.get("VERIF_NO_EVIDENCE") != "1" else ".work/mutant-replays", prop)
         os.makedirs(rdir, exist_ok=True)
         w = v["witnesses"][0] if v["witnesses"] else {}
         rp = os.path.join(rdir, h(json.dumps([key, w], sort_keys=True, default=str)) + ".json")
@@ -316,8 +316,9 @@ def finish(prop, tier, seed, merged, *, level, rule, assumptions, min_nontrivial
         validate_evidence(ev)
     except Exception as e:  # schema failure => inconclusive, still write what we have
         inconclusive.append(f"evidence does not validate: {str(e)[:300]}")
-    with open(os.path.join(ROOT, "evidence", f"{prop}.json"), "w") as f:
-        json.dump(ev, f, indent=1, default=str, sort_keys=True)
+    if os.environ.get("VERIF_NO_EVIDENCE") != "1":     # set only by tools/mutant.py (scratch trees)
+        with open(os.path.join(ROOT, "evidence", f"{prop}.json"), "w") as f:
+            json.dump(ev, f, indent=1, default=str, sort_keys=True)
     for ln in lines:
         print(ln)
     if n_viol:
